@@ -586,3 +586,101 @@ func zeroSizeShapes() []*T {
 		dyn(fix(fix(el(kUint, 8, 0), 0), 2)),
 	}
 }
+
+// parseSig reads a canonical type signature (as printed by Sig) back into a type tree; used by -replay.
+func parseSig(s string) (*T, error) {
+	t, rest, err := parseSigAt(s)
+	if err != nil {
+		return nil, err
+	}
+	if rest != "" {
+		return nil, fmt.Errorf("trailing %q", rest)
+	}
+	return t, nil
+}
+
+func parseSigAt(s string) (*T, string, error) {
+	var base *T
+	if strings.HasPrefix(s, "(") {
+		s = s[1:]
+		base = tup()
+		for !strings.HasPrefix(s, ")") {
+			k, rest, err := parseSigAt(s)
+			if err != nil {
+				return nil, "", err
+			}
+			base.Kids = append(base.Kids, k)
+			s = rest
+			if strings.HasPrefix(s, ",") {
+				s = s[1:]
+			} else if !strings.HasPrefix(s, ")") {
+				return nil, "", fmt.Errorf("expected , or ) at %q", s)
+			}
+		}
+		s = s[1:]
+	} else {
+		i := 0
+		for i < len(s) && s[i] != '[' && s[i] != ',' && s[i] != ')' {
+			i++
+		}
+		name := s[:i]
+		s = s[i:]
+		var m, n int
+		switch {
+		case name == "address":
+			base = el(kAddress, 0, 0)
+		case name == "bool":
+			base = el(kBool, 0, 0)
+		case name == "bytes":
+			base = el(kBytes, 0, 0)
+		case name == "string":
+			base = el(kString, 0, 0)
+		case name == "function":
+			base = el(kFunction, 0, 0)
+		case strings.HasPrefix(name, "ufixed"):
+			if _, err := fmt.Sscanf(name, "ufixed%dx%d", &m, &n); err != nil {
+				return nil, "", err
+			}
+			base = el(kUfixed, m, n)
+		case strings.HasPrefix(name, "fixed"):
+			if _, err := fmt.Sscanf(name, "fixed%dx%d", &m, &n); err != nil {
+				return nil, "", err
+			}
+			base = el(kFixed, m, n)
+		case strings.HasPrefix(name, "uint"):
+			if _, err := fmt.Sscanf(name, "uint%d", &m); err != nil {
+				return nil, "", err
+			}
+			base = el(kUint, m, 0)
+		case strings.HasPrefix(name, "int"):
+			if _, err := fmt.Sscanf(name, "int%d", &m); err != nil {
+				return nil, "", err
+			}
+			base = el(kInt, m, 0)
+		case strings.HasPrefix(name, "bytes"):
+			if _, err := fmt.Sscanf(name, "bytes%d", &m); err != nil {
+				return nil, "", err
+			}
+			base = el(kBytesN, m, 0)
+		default:
+			return nil, "", fmt.Errorf("unknown type %q", name)
+		}
+	}
+	for strings.HasPrefix(s, "[") {
+		j := strings.Index(s, "]")
+		if j < 0 {
+			return nil, "", fmt.Errorf("unclosed [")
+		}
+		if j == 1 {
+			base = dyn(base)
+		} else {
+			var k int
+			if _, err := fmt.Sscanf(s[1:j], "%d", &k); err != nil {
+				return nil, "", err
+			}
+			base = fix(base, k)
+		}
+		s = s[j+1:]
+	}
+	return base, s, nil
+}
